@@ -32,6 +32,47 @@ def showOw (r : OWParsed) : String :=
     ",".intercalate (r.elements.map fun (k, v) => s!"{k}:{toHex v}")
   s!"p={r.pins} v={r.vid} i={r.pid} e={es} V={b01 r.valid} C={b01 r.called}"
 
+def parseDots? (s : String) : Option (List Nat) :=
+  if s == "-" then some [] else (s.splitOn ".").mapM String.toNat?
+
+def geoOf? (f : List Nat) (v : Nat) : Option Geo :=
+  match f with
+  | [a, b, c, d, e, f, g, h, i, j, k, l] => some ⟨⟨a, b, c⟩, ⟨d, e, f⟩, ⟨g, h, i⟩, ⟨j, k, l⟩, v ≠ 0⟩
+  | _ => none
+
+def calibOf? (f : List Nat) (uid : Int) (v : Nat) : Option Calib :=
+  match f with
+  | [a, b, c, d, e, f, g, h, i, j, k, l, m, n] => some ⟨⟨a, b, c, d, e, f, g⟩, ⟨h, i, j, k, l, m, n⟩, uid, v ≠ 0⟩
+  | _ => none
+
+def dots (l : List Nat) : String := ".".intercalate (l.map toString)
+
+def showV3 (v : V3) : List Nat := [v.x, v.y, v.z]
+def showGeo (g : Geo) : String :=
+  s!"{dots (showV3 g.origin ++ showV3 g.r0 ++ showV3 g.r1 ++ showV3 g.r2)}/{b01 g.valid}"
+def showSweep (s : Sweep) : List Nat := [s.phase, s.tilt, s.curve, s.gibmag, s.gibphase, s.ogeemag, s.ogeephase]
+def showCalib (c : Calib) : String := s!"{dots (showSweep c.s0 ++ showSweep c.s1)}/{c.uid}/{b01 c.valid}"
+def showLhObj : LhObj → String
+  | .geo g => "geo " ++ showGeo g
+  | .calib c => "calib " ++ showCalib c
+def showRes {α} (f : α → String) : Except PyErr α → String
+  | .ok a => f a
+  | .error e => s!"E:{e}"
+
+def parseGeos? (s : String) : Option (List (Nat × Geo)) :=
+  if s == "-" then some [] else
+  (s.splitOn ",").mapM fun w =>
+    match w.splitOn "/" with
+    | [bs, f, v] => do pure ((← bs.toNat?), (← geoOf? (← parseDots? f) (← v.toNat?)))
+    | _ => none
+
+def parseCalibs? (s : String) : Option (List (Nat × Calib)) :=
+  if s == "-" then some [] else
+  (s.splitOn ",").mapM fun w =>
+    match w.splitOn "/" with
+    | [bs, f, uid, v] => do pure ((← bs.toNat?), (← calibOf? (← parseDots? f) (← uid.toInt?) (← v.toNat?)))
+    | _ => none
+
 def step (_ : Unit) (ws : List String) : Unit × String :=
   let r : String :=
     match ws with
@@ -60,6 +101,29 @@ def step (_ : Unit) (ws : List String) : Unit × String :=
       match ofHex? mem with
       | some m => showExcept showOw (owUpdateLive m)
       | none => "bad-op"
+    | ["geo_image", f, v] =>
+      match (do geoOf? (← parseDots? f) (← v.toNat?)) with
+      | some g => showExcept toHex (geoImage g)
+      | none => "bad-op"
+    | ["calib_image", f, uid, v] =>
+      match (do calibOf? (← parseDots? f) (← uid.toInt?) (← v.toNat?)) with
+      | some c => showExcept toHex (calibImage c)
+      | none => "bad-op"
+    | ["lh_new_data", addr, d] =>
+      match addr.toNat?, ofHex? d with
+      | some a, some d => showExcept showLhObj (lhNewData a d)
+      | _, _ => "bad-op"
+    | ["lh_cfg", size, gs, cs] =>
+      -- write geos then calibs into a zeroed memory of `size` bytes, then read all 16 + 16 pages back
+      match size.toNat?, parseGeos? gs, parseCalibs? cs with
+      | some size, some gs, some cs =>
+        match (do let mg ← lhWriteGeos (List.replicate size 0) gs; lhWriteCalibs mg cs) with
+        | .error e => s!"err {e}"
+        | .ok m =>
+          let gr := (List.range Gen.C14.lhNrOfChannels).map fun bs => showRes showLhObj (lhReadGeo m bs)
+          let cr := (List.range Gen.C14.lhNrOfChannels).map fun bs => showRes showLhObj (lhReadCalib m bs)
+          "ok " ++ ";".intercalate (gr ++ cr)
+      | _, _, _ => "bad-op"
     | _ => "bad-op"
   ((), r)
 
